@@ -333,7 +333,7 @@ class FnTaint:
     def _record_field_writes(self, dst, rv):
         """struct fields that receive untrusted data (type-based heap abstraction)"""
         sm = self.summaries
-        if sm is None:
+        if sm is None or not getattr(sm, "use_registry", True):
             return
         fn = self.fn
 
@@ -1184,9 +1184,11 @@ class Summaries:
 class Closure:
     """analyses a set of entry functions and everything they pass untrusted data to"""
 
-    def __init__(self, fx, buf_fields=(), scalar_fields=(), extra_sources=None, scope_files=None, max_fns=3000):
+    def __init__(self, fx, buf_fields=(), scalar_fields=(), extra_sources=None, scope_files=None, max_fns=3000,
+                 use_registry=True):
         self.fx = fx
         self.summ = Summaries(fx)
+        self.summ.use_registry = use_registry
         self.buf_fields = buf_fields
         self.scalar_fields = scalar_fields
         self.extra_sources = extra_sources
